@@ -50,6 +50,23 @@ func TinyAlphabet() []Msg {
 	return []Msg{a[0], a[1], a[4], a[8]}
 }
 
+// ConvAlphabet serves C16: channel messages on channels 0, 1 and 15, meta,
+// sysex and escape.
+func ConvAlphabet() []Msg {
+	return []Msg{
+		{"NoteOn0", midi.NoteOn(0, 60, 100)},
+		{"NoteOff0", midi.NoteOff(0, 60)},
+		{"NoteOn1", midi.NoteOn(1, 61, 90)},
+		{"Prog15", midi.ProgramChange(15, 7)},
+		{"CC1", midi.ControlChange(1, 7, 100)},
+		{"TextA", smf.MetaText("a")},
+		{"TextB", smf.MetaText("b")},
+		{"Tempo", smf.MetaTempo(90)},
+		{"SysEx", smf.Message(midi.SysEx([]byte{0x7E, 0x09}))},
+		{"EscapeF7", smf.Message([]byte{0xF7, 0xFA})},
+	}
+}
+
 type OpKind uint8
 
 const (
